@@ -1,2 +1,630 @@
-(** C02 — proofs (placeholder of the vertical slice). *)
-Require Import Nib.C17.AnteFacts Nib.C17.MsgTree Nib.C02.Model Nib.C02.Spec.
+(** C02 — proofs: the Ethereum msg-server handler runs only for direct messages of a transaction
+    that went through the EVM ante chain, which checked and consumed the nonce and took gas × price. *)
+From Coq Require Import List Bool Arith ZArith Lia.
+Import ListNotations.
+Require Import Nib.C17.AnteFacts Nib.C17.MsgTree Nib.C17.MsgTreeFacts Nib.C02.Model Nib.C02.Spec Nib.C02.Check.
+Local Open Scope Z_scope.
+
+(** ---------------------------------------------------------------- lookups *)
+Lemma seq_of_set_seq s a n b : seq_of (set_seq s a n) b = if Nat.eqb b a then n else seq_of s b.
+Proof. unfold seq_of, set_seq. simpl. reflexivity. Qed.
+Lemma bal_of_set_seq s a n b : bal_of (set_seq s a n) b = bal_of s b.
+Proof. reflexivity. Qed.
+Lemma bal_of_add_bal s a d b : bal_of (add_bal s a d) b = if Nat.eqb b a then bal_of s a + d else bal_of s b.
+Proof. unfold bal_of, add_bal. simpl. reflexivity. Qed.
+Lemma seq_of_add_bal s a d b : seq_of (add_bal s a d) b = seq_of s b.
+Proof. reflexivity. Qed.
+Lemma seq_of_add_fee s d b : seq_of (add_fee s d) b = seq_of s b.
+Proof. reflexivity. Qed.
+Lemma bal_of_add_fee s d b : bal_of (add_fee s d) b = bal_of s b.
+Proof. reflexivity. Qed.
+
+(** ---------------------------------------------------------------- hypotheses about the outside world *)
+Section World.
+  Variable w : world.
+
+  (** Hdisj: addresses of module accounts, contracts, interchain accounts and the sink are not
+      Ethereum-key-derived *)
+  Record world_ok : Prop := {
+    gov_non_eth : w_is_eth w (w_gov w) = false;
+    sink_non_eth : w_is_eth w (w_sink w) = false;
+    contracts_non_eth : forall ctr snd, w_reflects w ctr snd = true -> w_is_eth w ctr = false;
+    ica_non_eth : forall a, w_ica_acct w a = true -> w_is_eth w a = false
+  }.
+
+  (** Hdisj, other half: the address a MsgEthereumTx signature recovers to IS Ethereum-key-derived *)
+  Definition leaf_wf (l : leaf) : Prop :=
+    match l with EthTx a _ _ _ _ => w_is_eth w a = true | _ => True end.
+  Definition msg_wf (t : msg) : Prop := Forall leaf_wf (leaves leaf t).
+  Definition tx_wf (x : tx) : Prop := Forall msg_wf (t_msgs x).
+
+  (** invariant over histories: no authz grant has an Ethereum-derived granter *)
+  Definition grants_ok (s : st) : Prop := forall a b k, In (a, b, k) (grants s) -> w_is_eth w a = false.
+
+  (** nothing Ethereum-related moved *)
+  Definition frame (s s' : st) : Prop :=
+    ran s' = ran s /\ feecol s' = feecol s /\
+    forall a, w_is_eth w a = true -> seq_of s' a = seq_of s a /\ bal_of s' a = bal_of s a.
+
+  Lemma frame_refl s : frame s s.
+  Proof. repeat split; auto. Qed.
+
+  Lemma frame_trans s1 s2 s3 : frame s1 s2 -> frame s2 s3 -> frame s1 s3.
+  Proof.
+    intros (A1 & B1 & C1) (A2 & B2 & C2). repeat split; try congruence.
+    - destruct (C1 a H), (C2 a H). congruence.
+    - destruct (C1 a H), (C2 a H). congruence.
+  Qed.
+
+  Lemma granted_In s a b k : granted s a b k = true -> exists k', In (a, b, k') (grants s).
+  Proof.
+    unfold granted. intro H. apply existsb_exists in H as ([[a' b'] k'] & Hin & H).
+    apply andb_true_iff in H as [H _]. apply andb_true_iff in H as [Ha Hb].
+    apply Nat.eqb_eq in Ha, Hb. subst. eauto.
+  Qed.
+
+  Lemma msg_wf_children (cs : list msg) c0 :
+    Forall leaf_wf (flat_map (leaves leaf) cs) -> In c0 cs -> msg_wf c0.
+  Proof.
+    intros H Hin. unfold msg_wf. apply Forall_forall. intros l Hl.
+    rewrite Forall_forall in H. apply H. apply in_flat_map. eauto.
+  Qed.
+
+  (** ---------------------------------------------------------------- unfolding equations *)
+  Variable c : cfg.
+
+  Lemma run_msg_leaf l s : run_msg c w (Leaf l) s = leaf_run w s l.
+  Proof. reflexivity. Qed.
+  Lemma run_msg_exec g cs s :
+    run_msg c w (Exec g cs) s =
+    seq_opt (run_msg c w) (fun s c0 => authz_ok leaf leaf_signer leaf_kind st granted s g c0) cs s.
+  Proof. reflexivity. Qed.
+  Lemma run_msg_wasm snd ctr cs s :
+    run_msg c w (Wasm snd ctr cs) s =
+    if w_reflects w ctr snd && negb (Nat.eqb (List.length cs) 0)
+    then seq_opt (run_msg c w) (fun _ c0 => basic_msg c0 && wasm_admits c ctr c0) cs s
+    else None.
+  Proof. reflexivity. Qed.
+  Lemma run_msg_gov p cs s :
+    run_msg c w (Gov p cs) s =
+    if forallb (fun c0 => basic_msg c0 && Nat.eqb (signer_msg c0) (w_gov w)) cs then Some s else None.
+  Proof. reflexivity. Qed.
+  Lemma run_msg_ica r a cs s :
+    run_msg c w (Ica r a cs) s =
+    if w_ica_acct w a then
+      match seq_opt (run_msg c w) (fun _ c0 => w_ica_allow w (kind_of leaf leaf_kind c0) && Nat.eqb (signer_msg c0) a) cs s with
+      | Some s' => Some s'
+      | None => Some s
+      end
+    else Some s.
+  Proof. reflexivity. Qed.
+
+  (** ---------------------------------------------------------------- the tree lemma *)
+  Hypothesis Hw : world_ok.
+  Hypothesis Hwasm : wasm_signer c = true.
+
+  (** A message whose signer is not Ethereum-derived — at any depth, under any wrappers — never reaches the
+      Ethereum handler and never creates a grant with an Ethereum-derived granter. *)
+  Lemma run_non_eth :
+    forall t, msg_wf t ->
+    forall s s', w_is_eth w (signer_msg t) = false -> grants_ok s -> run_msg c w t s = Some s' ->
+    grants_ok s' /\ frame s s'.
+  Proof.
+    intro t.
+    induction t as [l|g cs IH|snd ct cs IH|p cs IH|r a cs IH] using (tree_ind' leaf); intros Hwf s s' Hsig Hg Hrun.
+    - rewrite run_msg_leaf in Hrun. unfold msg_wf in Hwf. simpl in Hwf. inversion Hwf as [|? ? Hl _]. subst.
+      destruct l as [a n gas price value|from|a b k]; simpl in *.
+      + congruence.
+      + destruct (bal_of s from <? 1); [discriminate|]. inversion Hrun. subst. split; [exact Hg|].
+        repeat split; auto. rewrite !bal_of_add_bal.
+        destruct (Nat.eqb a (w_sink w)) eqn:E1.
+        * apply Nat.eqb_eq in E1. subst. rewrite (sink_non_eth Hw) in H. discriminate.
+        * destruct (Nat.eqb a from) eqn:E2; [|reflexivity].
+          apply Nat.eqb_eq in E2. subst. congruence.
+      + inversion Hrun. subst. split; [|repeat split; reflexivity].
+        intros a' b' k' [E|Hin]; [inversion E; subst; exact Hsig|]. eapply Hg; eauto.
+    - rewrite run_msg_exec in Hrun. rewrite Forall_forall in IH.
+      refine (seq_opt_inv_weak _ _ (fun s1 => grants_ok s1 /\ frame s s1) _ _ s s' (conj Hg (frame_refl s)) Hrun).
+      intros c0 Hin s1 s2 [Hg1 Hf1] Hok Hr.
+      assert (Hs0 : w_is_eth w (signer_msg c0) = false).
+      { unfold authz_ok in Hok. apply orb_true_iff in Hok as [E|E].
+        - apply Nat.eqb_eq in E. unfold signer_msg. rewrite E. exact Hsig.
+        - apply granted_In in E as (k' & Hk). eapply Hg1; eauto. }
+      destruct (IH c0 Hin (msg_wf_children cs c0 Hwf Hin) s1 s2 Hs0 Hg1 Hr) as [Hg2 Hf2].
+      split; [exact Hg2|eapply frame_trans; eauto].
+    - rewrite run_msg_wasm in Hrun.
+      destruct (w_reflects w ct snd) eqn:Hrefl; simpl in Hrun; [|discriminate].
+      destruct (negb (Nat.eqb (List.length cs) 0)); [|discriminate].
+      rewrite Forall_forall in IH.
+      refine (seq_opt_inv_weak _ _ (fun s1 => grants_ok s1 /\ frame s s1) _ _ s s' (conj Hg (frame_refl s)) Hrun).
+      intros c0 Hin s1 s2 [Hg1 Hf1] Hok Hr.
+      assert (Hs0 : w_is_eth w (signer_msg c0) = false).
+      { apply andb_true_iff in Hok as [_ Hadm]. unfold wasm_admits in Hadm. rewrite Hwasm in Hadm. simpl in Hadm.
+        apply andb_true_iff in Hadm as [E _]. apply Nat.eqb_eq in E. unfold signer_msg. rewrite E.
+        eapply contracts_non_eth; eauto. }
+      destruct (IH c0 Hin (msg_wf_children cs c0 Hwf Hin) s1 s2 Hs0 Hg1 Hr) as [Hg2 Hf2].
+      split; [exact Hg2|eapply frame_trans; eauto].
+    - rewrite run_msg_gov in Hrun.
+      match type of Hrun with (if ?b then _ else _) = _ => destruct b end; [|discriminate].
+      inversion Hrun. subst. split; [exact Hg|apply frame_refl].
+    - rewrite run_msg_ica in Hrun.
+      destruct (w_ica_acct w a) eqn:Hacct; [|inversion Hrun; subst; split; [exact Hg|apply frame_refl]].
+      match type of Hrun with match ?q with _ => _ end = _ => destruct q as [s2|] eqn:E end;
+        inversion Hrun; subst; [|split; [exact Hg|apply frame_refl]].
+      rewrite Forall_forall in IH.
+      refine (seq_opt_inv_weak _ _ (fun s1 => grants_ok s1 /\ frame s s1) _ _ s s' (conj Hg (frame_refl s)) E).
+      intros c0 Hin s1 s3 [Hg1 Hf1] Hok Hr.
+      assert (Hs0 : w_is_eth w (signer_msg c0) = false).
+      { apply andb_true_iff in Hok as [_ E1]. apply Nat.eqb_eq in E1. rewrite E1. eapply ica_non_eth; eauto. }
+      destruct (IH c0 Hin (msg_wf_children cs c0 Hwf Hin) s1 s3 Hs0 Hg1 Hr) as [Hg2 Hf2].
+      split; [exact Hg2|eapply frame_trans; eauto].
+  Qed.
+
+  Lemma run_msgs_non_eth ms signer0 :
+    Forall msg_wf ms -> w_is_eth w signer0 = false ->
+    forallb (fun m => Nat.eqb (signer_msg m) signer0) ms = true ->
+    forall s s', grants_ok s -> run_msgs c w ms s = Some s' -> grants_ok s' /\ frame s s'.
+  Proof.
+    intros Hwf Hs0 Hall s s' Hg Hrun. unfold run_msgs in Hrun.
+    refine (seq_opt_inv_weak _ _ (fun s1 => grants_ok s1 /\ frame s s1) _ _ s s' (conj Hg (frame_refl s)) Hrun).
+    intros m Hin s1 s2 [Hg1 Hf1] _ Hr.
+    rewrite forallb_forall in Hall. specialize (Hall m Hin). apply Nat.eqb_eq in Hall.
+    rewrite Forall_forall in Hwf.
+    destruct (run_non_eth m (Hwf m Hin) s1 s2) as [Hg2 Hf2]; auto; [congruence|].
+    split; [exact Hg2|eapply frame_trans; eauto].
+  Qed.
+
+  (** ---------------------------------------------------------------- the non-EVM route *)
+  Hypothesis Hsigon : sig_on c = true.
+  Hypothesis Hsig : sig_accepts_eth c = false.   (* Hsig: the Cosmos signature path turns eth_secp256k1 keys away *)
+
+  (** eth accounts, the ghost trace and the grants invariant after the non-EVM ante handler *)
+  Lemma nonevm_ante_frame s x s1 :
+    nonevm_ante c w s x = Some s1 ->
+    w_is_eth w (t_signer x) = false /\
+    forallb (fun m => Nat.eqb (signer_msg m) (t_signer x)) (t_msgs x) = true /\
+    grants s1 = grants s /\ ran s1 = ran s /\
+    forall a, w_is_eth w a = true -> seq_of s1 a = seq_of s a /\ bal_of s1 a = bal_of s a.
+  Proof.
+    unfold nonevm_ante. rewrite Hsigon.
+    match goal with |- (if ?b then _ else _) = _ -> _ => destruct b eqn:Hcond end; [|discriminate].
+    intro H. inversion H. subst. clear H.
+    repeat (apply andb_true_iff in Hcond as [Hcond ?]).
+    match goal with Hk : key_ok c w x && _ = true |- _ => apply andb_true_iff in Hk as [Hkey Hall] end.
+    assert (Hne : w_is_eth w (t_signer x) = false).
+    { unfold key_ok in Hkey. rewrite Hsig in Hkey. destruct (t_key x); simpl in Hkey; try discriminate.
+      destruct (w_is_eth w (t_signer x)); [discriminate|reflexivity]. }
+    split; [exact Hne|]. split; [exact Hall|].
+    destruct (fee_on c) eqn:Hfee; destruct (seq_on c); simpl; repeat split; auto; try lia;
+      try (rewrite ?seq_of_set_seq, ?bal_of_set_seq, ?seq_of_add_fee, ?bal_of_add_fee, ?seq_of_add_bal, ?bal_of_add_bal;
+           destruct (Nat.eqb a (t_signer x)) eqn:E; [apply Nat.eqb_eq in E; subst; congruence|reflexivity]).
+  Qed.
+
+  Theorem nonevm_deliver_frame s x :
+    tx_wf x -> grants_ok s -> route_tx c (t_ext x) = RouteNonEVM ->
+    let s' := fst (deliver c w s x) in
+    grants_ok s' /\ ran s' = ran s /\
+    forall a, w_is_eth w a = true -> seq_of s' a = seq_of s a /\ bal_of s' a = bal_of s a.
+  Proof.
+    intros Hwf Hg Hroute. unfold deliver. rewrite Hroute.
+    destruct (nonevm_ante c w s x) as [s1|] eqn:Ha; simpl; [|repeat split; auto].
+    destruct (nonevm_ante_frame s x s1 Ha) as (Hne & Hall & Hgr & Hran & Heth).
+    assert (Hg1 : grants_ok s1) by (unfold grants_ok; rewrite Hgr; exact Hg).
+    destruct (run_msgs c w (t_msgs x) s1) as [s2|] eqn:Hr; simpl.
+    - destruct (run_msgs_non_eth (t_msgs x) (t_signer x) Hwf Hne Hall s1 s2 Hg1 Hr) as [Hg2 (Hr2 & _ & He2)].
+      split; [exact Hg2|]. split; [congruence|].
+      intros a Ha'. destruct (Heth a Ha'), (He2 a Ha'). split; congruence.
+    - split; [exact Hg1|]. split; [exact Hran|exact Heth].
+  Qed.
+End World.
+
+(** ---------------------------------------------------------------- the EVM route *)
+Lemma direct_eth_parts ms ls :
+  direct_eth ms = Some ls -> Forall (fun m => exists l, m = Leaf l /\ is_eth_leaf l = true) ms.
+Proof.
+  revert ls. induction ms as [|m ms IH]; intros ls H; [constructor|].
+  simpl in H. destruct m as [[a n g p v|?|? ? ?]| | | |]; try discriminate.
+  destruct (direct_eth ms) as [r|] eqn:E; [|discriminate].
+  constructor; [eexists; split; [reflexivity|reflexivity]|]. eapply IH; eauto.
+Qed.
+
+(** when the gas and nonce decorators are installed, a successful EVM ante pass IS an admission of every
+    message, in order: nonce = sequence, sequence + 1, gas × price moved to the fee collector *)
+Lemma evm_admit_admits c ms s s1 :
+  e_gas c = true -> e_seq c = true ->
+  evm_admit c ms s = Some s1 -> exists ls, direct_eth ms = Some ls /\ admit_seq s ls s1.
+Proof.
+  intros Hgas Hseq. revert s. induction ms as [|m ms IH]; intros s H; simpl in H.
+  - inversion H. subst. exists []. split; [reflexivity|constructor].
+  - destruct m as [[a n g p v|?|? ? ?]| | | |]; simpl in H; try discriminate.
+    unfold evm_admit_one in H. rewrite Hgas, Hseq in H.
+    destruct (bal_of s a <? g * p) eqn:Hb; [discriminate|].
+    rewrite seq_of_add_fee, seq_of_add_bal in H.
+    destruct (Nat.eqb n (seq_of s a)) eqn:Hn; [|discriminate].
+    apply IH in H as (ls & Hd & Hadm). exists (EthTx a n g p v :: ls). split.
+    + simpl. rewrite Hd. reflexivity.
+    + apply Nat.eqb_eq in Hn. constructor; auto. lia.
+Qed.
+
+Lemma run_msgs_cons c w m ms s :
+  run_msgs c w (m :: ms) s = match run_msg c w m s with Some s1 => run_msgs c w ms s1 | None => None end.
+Proof. reflexivity. Qed.
+
+(** the handlers of direct Ethereum messages append exactly those messages to the ghost trace *)
+Lemma run_direct_eth c w ms ls :
+  direct_eth ms = Some ls ->
+  forall s s', run_msgs c w ms s = Some s' -> ran s' = rev ls ++ ran s /\ grants s' = grants s.
+Proof.
+  revert ls. induction ms as [|m ms IH]; intros ls Hd s s' Hrun.
+  - simpl in Hd. inversion Hd. subst. unfold run_msgs in Hrun. simpl in Hrun. inversion Hrun. subst. auto.
+  - simpl in Hd. destruct m as [[a n g p v|?|? ? ?]| | | |]; try discriminate.
+    destruct (direct_eth ms) as [r|] eqn:E; [|discriminate]. inversion Hd. subst. clear Hd.
+    rewrite run_msgs_cons, run_msg_leaf in Hrun.
+    destruct (leaf_run w s (EthTx a n g p v)) as [s1|] eqn:Hl; [|discriminate].
+    destruct (IH r eq_refl s1 s' Hrun) as [Hr Hg].
+    simpl in Hl.
+    destruct (g <? GAS_TRANSFER); [discriminate|].
+    destruct (bal_of s a <? v); [discriminate|].
+    destruct (feecol s <? (g - GAS_TRANSFER) * p); [discriminate|].
+    inversion Hl. subst. simpl in *. split; [|exact Hg].
+    rewrite Hr. rewrite <- app_assoc. reflexivity.
+Qed.
+
+(** ---------------------------------------------------------------- what must hold of the code *)
+Definition cfg_ok (c : cfg) : Prop :=
+  sig_on c = true /\ sig_accepts_eth c = false /\ wasm_signer c = true /\
+  e_gas c = true /\ e_seq c = true /\ e_sig c = true /\
+  route_tx c NoExt = RouteNonEVM /\ route_tx c OtherExt <> RouteEVM /\
+  (route_tx c EvmExt = RouteEVM \/ route_tx c EvmExt = RouteReject).
+
+Definition route_eqb (a b : route) : bool :=
+  match a, b with
+  | RouteNonEVM, RouteNonEVM | RouteEVM, RouteEVM | RouteReject, RouteReject | RouteUnknown, RouteUnknown => true
+  | _, _ => false
+  end.
+
+Lemma route_eqb_eq a b : route_eqb a b = true <-> a = b.
+Proof. destruct a, b; simpl; split; intro H; try discriminate; auto. Qed.
+
+Definition cfg_okb (c : cfg) : bool :=
+  sig_on c && negb (sig_accepts_eth c) && wasm_signer c && e_gas c && e_seq c && e_sig c &&
+  route_eqb (route_tx c NoExt) RouteNonEVM && negb (route_eqb (route_tx c OtherExt) RouteEVM) &&
+  (route_eqb (route_tx c EvmExt) RouteEVM || route_eqb (route_tx c EvmExt) RouteReject).
+
+Lemma cfg_okb_sound c : cfg_okb c = true -> cfg_ok c.
+Proof.
+  unfold cfg_okb, cfg_ok. intro H. repeat (apply andb_true_iff in H as [H ?]).
+  repeat split; auto.
+  - destruct (sig_accepts_eth c); [discriminate|reflexivity].
+  - now apply route_eqb_eq.
+  - intro E. apply route_eqb_eq in E. rewrite E in *. discriminate.
+  - apply orb_true_iff in H0 as [E|E]; apply route_eqb_eq in E; auto.
+Qed.
+
+(** ---------------------------------------------------------------- the main statement, one transaction *)
+(** [l] ran behind the EVM ante pipeline in transaction [x] delivered in state [s] *)
+Definition admitted_in (s : st) (x : tx) (l : leaf) : Prop :=
+  t_ext x = EvmExt /\ In (Leaf l) (t_msgs x) /\
+  exists ls s1, direct_eth (t_msgs x) = Some ls /\ In l ls /\ admit_seq s ls s1.
+
+Lemma direct_eth_In ms ls l : direct_eth ms = Some ls -> In l ls -> In (Leaf l) ms.
+Proof.
+  revert ls. induction ms as [|m ms IH]; intros ls H Hin; simpl in H.
+  - inversion H. subst. contradiction.
+  - destruct m as [[a n g p v|?|? ? ?]| | | |]; try discriminate.
+    destruct (direct_eth ms) as [r|] eqn:E; [|discriminate]. inversion H. subst.
+    destruct Hin as [<-|Hin]; [now left|right; eapply IH; eauto].
+Qed.
+
+Theorem deliver_eth_only_behind_evm_ante c w s x :
+  cfg_ok c -> world_ok w -> tx_wf w x -> grants_ok w s ->
+  let s' := fst (deliver c w s x) in
+  grants_ok w s' /\
+  exists added, ran s' = added ++ ran s /\ forall l, In l added -> admitted_in s x l.
+Proof.
+  intros (Hsigon & Hsig & Hwasm & Hgas & Hseq & _ & Hno & Hother & Hevm) Hw Hwf Hg.
+  destruct (route_tx c (t_ext x)) eqn:Hroute.
+  - (* non-EVM route: nothing runs *)
+    destruct (nonevm_deliver_frame w c Hw Hwasm Hsigon Hsig s x Hwf Hg Hroute) as (Hg' & Hran & _).
+    split; [exact Hg'|]. exists []. split; [exact Hran|]. intros l [].
+  - (* EVM route *)
+    assert (Hext : t_ext x = EvmExt).
+    { destruct (t_ext x); auto; congruence. }
+    unfold deliver. rewrite Hroute. unfold evm_ante.
+    match goal with |- context [if ?b then _ else _] => destruct b end;
+      [|simpl; split; [exact Hg|exists []; split; [reflexivity|intros l []]]].
+    destruct (evm_admit c (t_msgs x) s) as [s1|] eqn:Ha;
+      [|simpl; split; [exact Hg|exists []; split; [reflexivity|intros l []]]].
+    destruct (evm_admit_admits c _ _ _ Hgas Hseq Ha) as (ls & Hd & Hadm).
+    assert (Hgr1 : grants s1 = grants s).
+    { clear -Hadm. induction Hadm; [reflexivity|]. rewrite IHHadm. reflexivity. }
+    assert (Hran1 : ran s1 = ran s).
+    { clear -Hadm. induction Hadm; [reflexivity|]. rewrite IHHadm. reflexivity. }
+    destruct (run_msgs c w (t_msgs x) s1) as [s2|] eqn:Hr; simpl.
+    + destruct (run_direct_eth c w _ _ Hd s1 s2 Hr) as [Hran2 Hgr2].
+      split; [unfold grants_ok; rewrite Hgr2, Hgr1; exact Hg|].
+      exists (rev ls). split; [rewrite Hran2, Hran1; reflexivity|].
+      intros l Hin. apply in_rev in Hin. split; [exact Hext|]. split; [eapply direct_eth_In; eauto|].
+      exists ls, s1. auto.
+    + split; [unfold grants_ok; rewrite Hgr1; exact Hg|]. exists []. split; [exact Hran1|]. intros l [].
+  - unfold deliver. rewrite Hroute. simpl. split; [exact Hg|]. exists []. split; [reflexivity|]. intros l [].
+  - unfold deliver. rewrite Hroute. simpl. split; [exact Hg|]. exists []. split; [reflexivity|]. intros l [].
+Qed.
+
+(** ---------------------------------------------------------------- histories *)
+Lemma run_history_app c w s h1 h2 : run_history c w s (h1 ++ h2) = run_history c w (run_history c w s h1) h2.
+Proof. unfold run_history. apply fold_left_app. Qed.
+
+Theorem history_eth_only_behind_evm_ante c w s0 h :
+  cfg_ok c -> world_ok w -> Forall (tx_wf w) h -> grants_ok w s0 ->
+  grants_ok w (run_history c w s0 h) /\
+  forall l, In l (ran (run_history c w s0 h)) ->
+    In l (ran s0) \/
+    exists h1 x h2, h = h1 ++ x :: h2 /\ admitted_in (run_history c w s0 h1) x l.
+Proof.
+  intros Hc Hw Hwf Hg.
+  induction h as [|x h IH] using rev_ind.
+  - simpl. split; [exact Hg|]. intros l Hl. now left.
+  - apply Forall_app in Hwf as [Hwf1 Hwf2]. inversion Hwf2 as [|? ? Hx _]. subst.
+    destruct (IH Hwf1) as [Hg1 Hran1]. rewrite run_history_app.
+    change (run_history c w (run_history c w s0 h) [x]) with (fst (deliver c w (run_history c w s0 h) x)).
+    destruct (deliver_eth_only_behind_evm_ante c w (run_history c w s0 h) x Hc Hw Hx Hg1) as [Hg2 (added & Hadd & Hall)].
+    split; [exact Hg2|].
+    intros l Hl. rewrite Hadd in Hl. apply in_app_or in Hl as [Hl|Hl].
+    + right. exists h, x, []. split; [reflexivity|]. apply Hall. exact Hl.
+    + destruct (Hran1 l Hl) as [H0|(h1 & y & h2 & E & Hy)]; [now left|].
+      right. exists h1, y, (h2 ++ [x]). split; [|exact Hy]. rewrite E. rewrite <- app_assoc. reflexivity.
+Qed.
+
+(** ---------------------------------------------------------------- corollaries *)
+
+(** admission only moves sequences forward, and every admitted nonce is at least the sender's sequence
+    at the start of the transaction *)
+Lemma admit_seq_mono s ls s1 : admit_seq s ls s1 -> forall b, (seq_of s b <= seq_of s1 b)%nat.
+Proof.
+  induction 1 as [|s a n g p v r s' Hn Hb _ IH]; intro b; [lia|].
+  specialize (IH b). rewrite seq_of_set_seq in IH. rewrite seq_of_add_fee, seq_of_add_bal in IH.
+  destruct (Nat.eqb b a) eqn:E; [apply Nat.eqb_eq in E; subst; lia|lia].
+Qed.
+
+Lemma admit_seq_nonce_ge s ls s1 :
+  admit_seq s ls s1 -> forall a n g p v, In (EthTx a n g p v) ls -> (seq_of s a <= n)%nat.
+Proof.
+  induction 1 as [|s a n g p v r s' Hn Hb Hadm IH]; intros a' n' g' p' v' Hin; [contradiction|].
+  destruct Hin as [E|Hin].
+  - inversion E. subst. lia.
+  - specialize (IH a' n' g' p' v' Hin). rewrite seq_of_set_seq in IH. rewrite seq_of_add_fee, seq_of_add_bal in IH.
+    destruct (Nat.eqb a' a) eqn:E; [apply Nat.eqb_eq in E; subst; lia|lia].
+Qed.
+
+(** the handlers of admitted messages never move a sequence below [base] when every nonce is >= base *)
+Lemma run_direct_eth_seq c w ms ls (base : addr -> nat) :
+  direct_eth ms = Some ls ->
+  (forall a n g p v, In (EthTx a n g p v) ls -> (base a <= n)%nat) ->
+  forall s s', (forall b, (base b <= seq_of s b)%nat) -> run_msgs c w ms s = Some s' ->
+  forall b, (base b <= seq_of s' b)%nat.
+Proof.
+  revert ls. induction ms as [|m ms IH]; intros ls Hd Hn s s' Hs Hrun b.
+  - unfold run_msgs in Hrun. simpl in Hrun. inversion Hrun. subst. apply Hs.
+  - simpl in Hd. destruct m as [[a n g p v|?|? ? ?]| | | |]; try discriminate.
+    destruct (direct_eth ms) as [r|] eqn:E; [|discriminate]. inversion Hd. subst. clear Hd.
+    rewrite run_msgs_cons, run_msg_leaf in Hrun.
+    destruct (leaf_run w s (EthTx a n g p v)) as [s1|] eqn:Hl; [|discriminate].
+    eapply (IH r eq_refl); [| |exact Hrun].
+    + intros. eapply Hn. right. eauto.
+    + intro b'. simpl in Hl.
+      destruct (g <? GAS_TRANSFER); [discriminate|].
+      destruct (bal_of s a <? v); [discriminate|].
+      destruct (feecol s <? (g - GAS_TRANSFER) * p); [discriminate|].
+      inversion Hl. subst.
+      change (seq_of (add_ran _ _) b') with (seq_of (set_seq s a (S n)) b').
+      rewrite seq_of_set_seq. destruct (Nat.eqb b' a) eqn:E2.
+      * apply Nat.eqb_eq in E2. subst. specialize (Hn a n g p v (or_introl eq_refl)). lia.
+      * apply Hs.
+Qed.
+
+(** no transaction — of any shape, through any route — rewinds the sequence (nonce) of an
+    Ethereum-derived account *)
+Theorem nonce_never_rewound c w s x :
+  cfg_ok c -> world_ok w -> tx_wf w x -> grants_ok w s ->
+  forall a, w_is_eth w a = true -> (seq_of s a <= seq_of (fst (deliver c w s x)) a)%nat.
+Proof.
+  intros Hc Hw Hwf Hg a Ha.
+  pose proof Hc as (Hsigon & Hsig & Hwasm & Hgas & Hseq & _ & Hno & Hother & Hevm).
+  destruct (route_tx c (t_ext x)) eqn:Hroute.
+  - destruct (nonevm_deliver_frame w c Hw Hwasm Hsigon Hsig s x Hwf Hg Hroute) as (_ & _ & He).
+    destruct (He a Ha) as [E _]. simpl in E. rewrite E. lia.
+  - unfold deliver. rewrite Hroute. unfold evm_ante.
+    match goal with |- context [if ?b then _ else _] => destruct b end; [|simpl; lia].
+    destruct (evm_admit c (t_msgs x) s) as [s1|] eqn:Hadm0; [|simpl; lia].
+    destruct (evm_admit_admits c _ _ _ Hgas Hseq Hadm0) as (ls & Hd & Hadm).
+    destruct (run_msgs c w (t_msgs x) s1) as [s2|] eqn:Hr; simpl.
+    + eapply (run_direct_eth_seq c w _ _ (seq_of s) Hd); [|intro b; eapply admit_seq_mono; eauto|exact Hr].
+      intros. eapply admit_seq_nonce_ge; eauto.
+    + eapply admit_seq_mono; eauto.
+  - unfold deliver. rewrite Hroute. simpl. lia.
+  - unfold deliver. rewrite Hroute. simpl. lia.
+Qed.
+
+(** ---------------------------------------------------------------- refunds are covered by prepayments *)
+Definition cost_of (a : addr) (ls : list leaf) : Z :=
+  sumZ (map (fun l => match l with EthTx b _ g p _ => if Nat.eqb a b then g * p else 0 | _ => 0 end) ls).
+
+Lemma admit_seq_bal s ls s1 : admit_seq s ls s1 -> forall b, bal_of s1 b = bal_of s b - cost_of b ls.
+Proof.
+  induction 1 as [|s a n g p v r s' Hn Hb _ IH]; intro b; [unfold cost_of; simpl; lia|].
+  rewrite (IH b). rewrite bal_of_set_seq, bal_of_add_fee, bal_of_add_bal.
+  unfold cost_of. simpl. fold (cost_of b r).
+  destruct (Nat.eqb b a) eqn:E; [apply Nat.eqb_eq in E; subst|]; unfold cost_of; lia.
+Qed.
+
+Definition leaf_nonneg (l : leaf) : Prop :=
+  match l with EthTx _ _ g p v => 0 <= g /\ 0 <= p /\ 0 <= v | _ => True end.
+
+Lemma cost_of_nonneg a ls : Forall leaf_nonneg ls -> 0 <= cost_of a ls.
+Proof.
+  induction 1 as [|l r Hl _ IH]; [unfold cost_of; simpl; lia|].
+  unfold cost_of in *. simpl. destruct l as [b n g p v|?|? ? ?]; simpl in *; try lia.
+  destruct (Nat.eqb a b); [|lia]. destruct Hl as (Hg & Hp & Hv). nia.
+Qed.
+
+Lemma run_direct_eth_bal c w ms ls :
+  direct_eth ms = Some ls -> Forall leaf_nonneg ls ->
+  forall s s', run_msgs c w ms s = Some s' ->
+  forall b, b <> w_sink w -> bal_of s' b <= bal_of s b + cost_of b ls.
+Proof.
+  revert ls. induction ms as [|m ms IH]; intros ls Hd Hnn s s' Hrun b Hb.
+  - simpl in Hd. inversion Hd. subst. unfold run_msgs in Hrun. simpl in Hrun. inversion Hrun. subst.
+    unfold cost_of. simpl. lia.
+  - simpl in Hd. destruct m as [[a n g p v|?|? ? ?]| | | |]; try discriminate.
+    destruct (direct_eth ms) as [r|] eqn:E; [|discriminate]. inversion Hd. subst. clear Hd.
+    inversion Hnn as [|? ? Hpv Hnn']. subst. simpl in Hpv. destruct Hpv as (Hg0 & Hp & Hv).
+    rewrite run_msgs_cons, run_msg_leaf in Hrun.
+    destruct (leaf_run w s (EthTx a n g p v)) as [s1|] eqn:Hl; [|discriminate].
+    specialize (IH r eq_refl Hnn' s1 s' Hrun b Hb).
+    simpl in Hl.
+    destruct (g <? GAS_TRANSFER) eqn:Hg; [discriminate|].
+    destruct (bal_of s a <? v); [discriminate|].
+    destruct (feecol s <? (g - GAS_TRANSFER) * p); [discriminate|].
+    inversion Hl. subst. clear Hl.
+    change (bal_of (add_ran ?x _) b) with (bal_of x b) in IH.
+    rewrite bal_of_add_fee, !bal_of_add_bal, bal_of_set_seq in IH.
+    unfold cost_of. simpl. fold (cost_of b r).
+    destruct (Nat.eqb b (w_sink w)) eqn:E1; [apply Nat.eqb_eq in E1; contradiction|].
+    unfold GAS_TRANSFER in *.
+    assert (Hle : (g - 21000) * p <= g * p) by nia.
+    destruct (Nat.eqb b a) eqn:E2; [apply Nat.eqb_eq in E2; subst|rewrite bal_of_set_seq in IH]; lia.
+Qed.
+
+Lemma direct_eth_basic ms ls :
+  direct_eth ms = Some ls -> forallb basic_msg ms = true -> Forall leaf_nonneg ls.
+Proof.
+  revert ls. induction ms as [|m ms IH]; intros ls Hd Hb; simpl in Hd.
+  - inversion Hd. constructor.
+  - destruct m as [[a n g p v|?|? ? ?]| | | |]; try discriminate.
+    destruct (direct_eth ms) as [r|] eqn:E; [|discriminate]. inversion Hd. subst.
+    simpl in Hb. apply andb_true_iff in Hb as [H1 H2].
+    constructor; [|apply IH; auto].
+    simpl. apply andb_true_iff in H1 as [H1 Hv]. apply andb_true_iff in H1 as [Hg Hp]. lia.
+Qed.
+
+(** whatever the transaction, an Ethereum-derived account never ends with more than it had: the only credit
+    the Ethereum handler makes to the sender — the refund of leftover gas — is covered by what the EVM ante
+    chain took from that sender in the same transaction *)
+Theorem refund_covered_by_prepayment c w s x :
+  cfg_ok c -> e_vb c = true -> world_ok w -> tx_wf w x -> grants_ok w s ->
+  forall a, w_is_eth w a = true -> bal_of (fst (deliver c w s x)) a <= bal_of s a.
+Proof.
+  intros Hc Hvb Hw Hwf Hg a Ha.
+  pose proof Hc as (Hsigon & Hsig & Hwasm & Hgas & Hseq & _ & Hno & Hother & Hevm).
+  destruct (route_tx c (t_ext x)) eqn:Hroute.
+  - destruct (nonevm_deliver_frame w c Hw Hwasm Hsigon Hsig s x Hwf Hg Hroute) as (_ & _ & He).
+    destruct (He a Ha) as [_ E]. simpl in E. rewrite E. lia.
+  - unfold deliver. rewrite Hroute. unfold evm_ante. rewrite Hvb.
+    match goal with |- context [if ?b then _ else _] => destruct b eqn:Hcond end; [|simpl; lia].
+    destruct (evm_admit c (t_msgs x) s) as [s1|] eqn:Hadm0; [|simpl; lia].
+    destruct (evm_admit_admits c _ _ _ Hgas Hseq Hadm0) as (ls & Hd & Hadm).
+    pose proof (admit_seq_bal _ _ _ Hadm a) as Hb1.
+    apply andb_true_iff in Hcond as [Hcond _]. apply andb_true_iff in Hcond as [_ Hcond].
+    apply andb_true_iff in Hcond as [Hcond _]. apply andb_true_iff in Hcond as [_ Hbasic].
+    pose proof (direct_eth_basic _ _ Hd Hbasic) as Hnn.
+    pose proof (cost_of_nonneg a ls Hnn) as Hcost.
+    destruct (run_msgs c w (t_msgs x) s1) as [s2|] eqn:Hr; simpl; [|lia].
+    assert (Hsink : a <> w_sink w) by (intro E; subst; rewrite (sink_non_eth w Hw) in Ha; discriminate).
+    pose proof (run_direct_eth_bal c w _ _ Hd Hnn s1 s2 Hr a Hsink). lia.
+  - unfold deliver. rewrite Hroute. simpl. lia.
+  - unfold deliver. rewrite Hroute. simpl. lia.
+Qed.
+
+(** ---------------------------------------------------------------- what the statement needs: refutations *)
+Definition eth (a : addr) (n : nat) (g : Z) : msg := Leaf (EthTx a n g 1 1).
+Definition evm_tx (ms : list msg) : tx := {| t_ext := EvmExt; t_signer := 98; t_key := KNone; t_fee := 1000000; t_msgs := ms |}.
+Definition cos_tx (s : addr) (ms : list msg) : tx := {| t_ext := NoExt; t_signer := s; t_key := KCosmos; t_fee := 1000000; t_msgs := ms |}.
+Definition ek_tx (s : addr) (ms : list msg) : tx := {| t_ext := NoExt; t_signer := s; t_key := KEth; t_fee := 1000000; t_msgs := ms |}.
+
+(** a violation visible in the model state: in a transaction WITHOUT the EVM extension option the Ethereum
+    handler ran, rewound the sender's nonce and paid it a refund nobody prepaid *)
+Definition violated_by (c : cfg) (h : list tx) (x : tx) (a : addr) : Prop :=
+  let s := run_history c harness_world harness_init h in
+  let s' := fst (deliver c harness_world s x) in
+  t_ext x = NoExt /\ ran s' <> ran s /\ (seq_of s' a < seq_of s a)%nat /\ bal_of s a < bal_of s' a.
+
+(** Hsig dropped: if the Cosmos signature path accepted eth_secp256k1 keys, the key's owner could wrap its
+    own MsgEthereumTx in MsgExec{self,[MsgExec{self,[…]}]} (one level deeper than the authz guard looks) *)
+Definition cfg_eth_keys_accepted : cfg :=
+  {| nonevm_known := true; evm_route := RouteEVM; other_route := RouteReject; other_decodable := false;
+     g_prevent := true; g_authz := true; g_authz_rec := false; vb_on := true; sig_on := true; sig_accepts_eth := true;
+     fee_on := true; seq_on := true; e_vb := true; e_sig := true; e_acc := true; e_gas := true; e_seq := true;
+     wasm_signer := true; wasm_no_eth := true |}.
+
+Lemma refuted_if_eth_keys_sign_cosmos_txs :
+  exists h x a, Forall (tx_wf harness_world) (h ++ [x]) /\ violated_by cfg_eth_keys_accepted h x a.
+Proof.
+  (* E signs one Cosmos tx granting its MsgEthereumTx to account 1 (nested, so that the top-level guard does
+     not see the grant); account 1 then replays E's old message two MsgExec levels deep *)
+  exists [evm_tx [eth 20 0 21000]; evm_tx [eth 20 1 21000]; evm_tx [eth 20 2 21000];
+          ek_tx 20 [Exec 20 [Leaf (Grant 20 1 (MKLeaf K_ETH))]]],
+         (cos_tx 1 [Exec 1 [Exec 1 [eth 20 0 50000]]]), 20%nat.
+  split.
+  - repeat constructor.
+  - unfold violated_by. vm_compute. repeat split; try discriminate; auto.
+Qed.
+
+(** the wasm handler's signer check dropped: a contract could dispatch MsgExec{grantee = E,[MsgEthereumTx of E]} *)
+Definition cfg_wasm_signer_unchecked : cfg :=
+  {| nonevm_known := true; evm_route := RouteEVM; other_route := RouteReject; other_decodable := false;
+     g_prevent := true; g_authz := true; g_authz_rec := false; vb_on := true; sig_on := true; sig_accepts_eth := false;
+     fee_on := true; seq_on := true; e_vb := true; e_sig := true; e_acc := true; e_gas := true; e_seq := true;
+     wasm_signer := false; wasm_no_eth := true |}.
+
+Lemma refuted_if_wasm_signer_unchecked :
+  exists h x a, Forall (tx_wf harness_world) (h ++ [x]) /\ violated_by cfg_wasm_signer_unchecked h x a.
+Proof.
+  exists [evm_tx [eth 20 0 21000]; evm_tx [eth 20 1 21000]; evm_tx [eth 20 2 21000]],
+         (cos_tx 0 [Wasm 0 10 [Exec 20 [eth 20 0 50000]]]), 20%nat.
+  split.
+  - repeat constructor.
+  - unfold violated_by. vm_compute. repeat split; try discriminate; auto.
+Qed.
+
+(** the nonce decorator dropped from the EVM chain: the same signed message executes twice *)
+Definition cfg_no_nonce_check : cfg :=
+  {| nonevm_known := true; evm_route := RouteEVM; other_route := RouteReject; other_decodable := false;
+     g_prevent := true; g_authz := true; g_authz_rec := false; vb_on := true; sig_on := true; sig_accepts_eth := false;
+     fee_on := true; seq_on := true; e_vb := true; e_sig := true; e_acc := true; e_gas := true; e_seq := false;
+     wasm_signer := true; wasm_no_eth := true |}.
+
+Lemma refuted_if_nonce_decorator_dropped :
+  exists h l, ran (run_history cfg_no_nonce_check harness_world harness_init h) = [l; l].
+Proof.
+  exists [evm_tx [eth 20 0 21000]; evm_tx [eth 20 0 21000]]. eexists. vm_compute. reflexivity.
+Qed.
+
+(** ---------------------------------------------------------------- non-vacuity *)
+Example cfg_current_ok : cfg_ok cfg_current.
+Proof. apply cfg_okb_sound. vm_compute. reflexivity. Qed.
+
+Example harness_world_ok : world_ok harness_world.
+Proof.
+  constructor; simpl; auto.
+  - intros ctr snd H. apply andb_true_iff in H as [H _]. apply Nat.eqb_eq in H. subst. reflexivity.
+  - intros a H. discriminate.
+Qed.
+
+Example harness_init_grants_ok : grants_ok harness_world harness_init.
+Proof. intros a b k []. Qed.
+
+(** with the committed code Ethereum messages DO execute — behind the EVM ante chain: three messages of two
+    senders in one transaction, then a deeper Cosmos-side attempt that changes nothing for them *)
+Definition h_nonvacuous : list tx := [
+  evm_tx [eth 20 0 50000; eth 21 0 21000; eth 20 1 21000];
+  cos_tx 1 [Exec 1 [Exec 1 [eth 20 0 50000]]];
+  cos_tx 0 [Wasm 0 10 [Exec 10 [Leaf (Send 10)]]]
+].
+
+Example eth_runs_behind_evm_ante :
+  Forall (tx_wf harness_world) h_nonvacuous /\
+  let s := run_history cfg_current harness_world harness_init h_nonvacuous in
+  List.length (ran s) = 3%nat /\ seq_of s 20 = 2%nat /\ seq_of s 21 = 1%nat /\
+  bal_of s 20 = FUND - 2 * 21001 /\ feecol s = 3 * 21000 + 2 * 1000000.
+Proof. split; [repeat constructor|]. vm_compute. repeat split; reflexivity. Qed.
